@@ -1013,7 +1013,7 @@ fn main() {
         println!("{}", runtime_teardown());
         std::process::exit(0);
     }
-    let multi = matches!(args.get(1).map(|s| s.as_str()), Some("admission") | Some("default_timeouts") | Some("rpc_pairing") | Some("history") | Some("oversize_confined") | Some("hostile_streams") | Some("network_names") | Some("claimed_name_grid") | Some("stolen_certificate") | Some("shutdown_scenario") | Some("abandoned_rpcs") | Some("typed_rpc_roundtrip") | Some("busy_node_still_dials") | Some("panicking_handler") | Some("end_to_end_fidelity") | Some("mutual_dial_inflight") | Some("identity_claims_in_headers") | Some("header_only_deadline") | Some("hostile_requests"));
+    let multi = matches!(args.get(1).map(|s| s.as_str()), Some("admission") | Some("default_timeouts") | Some("rpc_pairing") | Some("history") | Some("oversize_confined") | Some("hostile_streams") | Some("network_names") | Some("claimed_name_grid") | Some("stolen_certificate") | Some("abrupt_close_mt") | Some("shutdown_scenario") | Some("abandoned_rpcs") | Some("typed_rpc_roundtrip") | Some("busy_node_still_dials") | Some("panicking_handler") | Some("end_to_end_fidelity") | Some("mutual_dial_inflight") | Some("identity_claims_in_headers") | Some("header_only_deadline") | Some("hostile_requests"));
     let rt = if multi {
         tokio::runtime::Builder::new_multi_thread().worker_threads(2).enable_all().build().unwrap()
     } else {
@@ -1154,6 +1154,7 @@ async fn run(args: Vec<String>) {
         "shutdown_scenario" => shutdown_scenario(&a).await,
         "codegen_routes" => codegen::codegen_routes(&a).await,
         "typed_rpc_roundtrip" => hostile::typed_rpc_roundtrip(&a).await,
+        "abrupt_close" | "abrupt_close_mt" => hostile::abrupt_close(&a).await,
         "busy_node_still_dials" => busy_node_still_dials(&a).await,
         "hostile_streams" => hostile::hostile_streams(&a).await,
         // several messages written in ONE process, one after the other (state kept between calls would show)
